@@ -242,6 +242,15 @@ func (p *Policy) Assemble() ([]bpf.Instruction, error) {
 		instructions = append(instructions, groupInsts...)
 	}
 
+	if len(instructions) == 0 {
+		// None of the groups contains a syscall, so everything gets the default action. The
+		// architecture check below jumps to the second to last instruction, hence two returns.
+		defaultOnly := NewProgram()
+		defaultOnly.Ret(p.DefaultAction)
+		defaultOnly.Ret(p.DefaultAction)
+		instructions = defaultOnly.instructions
+	}
+
 	// Filter out x32 to prevent bypassing blacklists by using the 32-bit ABI.
 	var x32Filter []bpf.Instruction
 	if p.arch.ID == arch.X86_64.ID {
